@@ -387,7 +387,7 @@ class C19:
                  "pfs": draw(st.lists(st.tuples(frac, frac), max_size=4)),
                  "early": draw(st.lists(st.tuples(frac, st.lists(frac, min_size=1, max_size=3), st.integers(0, 2)), max_size=2)),
                  "oprints": draw(st.lists(st.tuples(frac, frac), max_size=3)),
-                 "indent": draw(st.integers(0, 3))}
+                 "indent": draw(st.integers(0, 3) | st.sampled_from([7, 8, 15, 16, 17, 31, 32, 33, 64, 100, 1000]))}
             if sc == "c19" and draw(st.booleans()):
                 del c["tokens"]
                 c["text"] = C19_TEXT
